@@ -33,6 +33,10 @@ CHECKS = {
 }
 
 
+# checks that compile run-time generated modules
+COMPILED = {'C02', 'C03', 'C04', 'C05', 'C09', 'C12', 'C14', 'C16'}
+
+
 class Ctx(object):
     def __init__(self, pid, tier, seed, work, home):
         self.property_id = pid
@@ -173,9 +177,16 @@ def main(argv=None):
     sys.path.insert(0, VERIF)
     from vlib import build
     t0 = time.time()
+    o3_pass = False
     if a.tier == 'quick' or a.replay:
         # generated modules: -O0 in the quick tier (see build._opt_suffix)
         os.environ.setdefault('VERIF_OPT', '-O0')
+    elif pid in COMPILED and not os.environ.get('VERIF_OPT'):
+        # thorough tier of a check that compiles generated code: the wide
+        # enumeration at -O0, then the quick tier's enumeration once more
+        # with compyle's own -O3 (what a user runs)
+        os.environ['VERIF_OPT'] = '-O0'
+        o3_pass = True
     work, home = build.activate()
     ctx = Ctx(pid, a.tier, seed, work, home)
     mod = importlib.import_module(CHECKS[pid])
@@ -218,6 +229,41 @@ def main(argv=None):
                                    explanation='aborted run: ' + last),
                      ['the run was aborted by an exception raised inside '
                       'pysph; nothing beyond that point was explored'], [v])
+    if o3_pass and not res.coverage.get('aborted'):
+        import subprocess
+        env = dict(os.environ, VERIF_OPT='-O3', VERIF_NOEVIDENCE='1')
+        env.pop('VERIF_TIER', None)
+        t1 = time.time()
+        r = subprocess.run([sys.executable, os.path.abspath(__file__), pid,
+                            '--tier', 'quick'], env=env,
+                           stdout=subprocess.PIPE, stderr=subprocess.STDOUT)
+        out = r.stdout.decode('utf8', 'replace')
+        summary = [l for l in out.splitlines() if ' tier=quick ' in l]
+        seen = set(v.key for v in res.violations)
+        for line in out.splitlines():
+            if line.startswith('VIOLATION property='):
+                rp = line.split('replay=', 1)[1].strip()
+                try:
+                    with open(rp) as f:
+                        obj = json.load(f)
+                    key, what, rep = obj['key'], obj['what'], obj['replay']
+                except Exception:  # noqa
+                    key, what, rep = 'o3-pass:' + os.path.basename(rp), \
+                        line, dict(replay_file=rp)
+                if key not in seen:
+                    seen.add(key)
+                    res.violations.append(Violation(
+                        key, '[-O3 pass] ' + what, rep))
+        if r.returncode not in (0, 1):
+            res.violations.append(Violation(
+                'o3-pass:did-not-complete', 'the -O3 pass of the quick '
+                'enumeration ended with status %d: %s' % (
+                    r.returncode, out[-600:]), dict(output=out[-3000:])))
+        res.coverage['o3_pass'] = dict(
+            what='the quick tier enumeration repeated with generated '
+                 'modules compiled at -O3',
+            summary=summary[-1][:300] if summary else None,
+            wall_s=round(time.time() - t1, 1))
     wall = time.time() - t0
     build.prune_code_cache(home)
 
